@@ -112,6 +112,9 @@ fn predict(c: &Case13, budget: usize) -> (Expect, Option<RunResult>) {
         return (Expect::Skip("counts outside the claimed domain"), None);
     }
     let m = run_model_opts(&cmds, stdin_lines(&c.stdin), budget, 7, false, true);
+    if m.flags.stack_ops > 4_000_000 {
+        return (Expect::Skip("more than 4 million stack operations (too slow to judge with a fixed CPU limit)"), None);
+    }
     if m.flags.unspecified_outputs > 0 {
         let e = match &m.end {
             End::Normal | End::Stop(Stop::Exit(_)) | End::Stop(Stop::Encoding(_)) | End::Stop(Stop::InputError) => Expect::Defined("output value >= 2^32 (unspecified character)"),
